@@ -36,6 +36,17 @@
 #include <nop/types/optional.h>
 #include <nop/types/result.h>
 #include <unordered_map>
+#include <istream>
+#include <ostream>
+#include <streambuf>
+#include <nop/utility/bounded_reader.h>
+#include <nop/utility/bounded_writer.h>
+#include <nop/utility/buffer_reader.h>
+#include <nop/utility/buffer_writer.h>
+#include <nop/utility/pedantic_buffer_reader.h>
+#include <nop/utility/pedantic_buffer_writer.h>
+#include <nop/utility/stream_reader.h>
+#include <nop/utility/stream_writer.h>
 
 #include "report.h"
 #include "vsched.h"
@@ -399,10 +410,117 @@ static void body_wide(int k, Log& log) {
   log.push_back(std::string("read:") + (rs ? std::string("ok") : std::string("fail:") + rs.GetErrorMessage()) + ":" + wstr(back) + (wstr(back) == wstr(v) ? ":same" : ":DIFFERENT"));
 }
 
+// B9: the library's own readers and writers, each thread on its own objects: stream reader/writer over a stream buffer
+// whose virtual calls are scheduling points, the buffer/pedantic/bounded classes on thread-private arrays; values,
+// lengths and padding bytes depend on the thread index
+struct YOutBuf : std::streambuf {
+  std::string data;
+  std::streamsize xsputn(const char* s, std::streamsize n) override { YP(); data.append(s, (size_t)n); return n; }
+  int_type overflow(int_type c) override { YP(); if (c != traits_type::eof()) data.push_back((char)c); return c; }
+};
+struct YOStream : std::ostream {
+  YOutBuf buf;
+  YOStream() : std::ostream(nullptr) { rdbuf(&buf); }
+};
+struct YInBuf : std::streambuf {
+  std::string data; size_t pos = 0;
+  int_type underflow() override { YP(); return pos < data.size() ? traits_type::to_int_type(data[pos]) : traits_type::eof(); }
+  int_type uflow() override { YP(); return pos < data.size() ? traits_type::to_int_type(data[pos++]) : traits_type::eof(); }
+  std::streamsize xsgetn(char* s, std::streamsize n) override {
+    YP();
+    size_t k = std::min<size_t>((size_t)n, data.size() - pos);
+    if (k) memcpy(s, data.data() + pos, k);
+    pos += k;
+    return (std::streamsize)k;
+  }
+};
+struct YIStream : std::istream {
+  YInBuf buf;
+  explicit YIStream(const std::string& d) : std::istream(nullptr) { buf.data = d; rdbuf(&buf); }
+};
+static std::string shex(const std::string& s, size_t cap = 400) { return hex(reinterpret_cast<const uint8_t*>(s.data()), s.size(), cap); }
+// between_ops: the class has no scheduling point of its own (plain memory), so one is placed between its operations
+template <class W>
+static std::string drive_writer(W& w, int k, bool between_ops) {
+  std::string st;
+  auto add = [&](nop::Status<void> s) { st += s ? "+" : "-"; if (between_ops) YP(); };
+  const std::uint32_t words[3] = {0x01020304u + (std::uint32_t)k, 0xa0b0c0d0u + (std::uint32_t)k, (std::uint32_t)k};
+  const std::uint16_t halves[2] = {(std::uint16_t)(0x1122 + k), (std::uint16_t)(0x3344 + k)};
+  add(w.Prepare(8));
+  add(w.Write((std::uint8_t)(0x40 + k)));
+  add(w.Write(words, words + 3));
+  add(w.Skip(5 + k, (std::uint8_t)(0xe0 + k)));  // padding byte and length differ per thread
+  add(w.Write(halves, halves + 2));
+  add(w.Skip(3));
+  add(w.Skip(2 + k, (std::uint8_t)(0x11 * (k + 1))));
+  add(w.Write((std::uint8_t)(0x50 + k)));
+  return st;
+}
+template <class Rd>
+static std::string drive_reader(Rd& r, int k, bool between_ops) {
+  std::string st;
+  auto add = [&](nop::Status<void> s) { st += s ? "+" : "-"; if (between_ops) YP(); };
+  std::uint8_t b = 0; std::uint32_t words[3] = {0, 0, 0}; std::uint16_t halves[2] = {0, 0};
+  add(r.Ensure(8));
+  add(r.Read(&b));
+  st += std::to_string(b) + ",";
+  add(r.Read(words, words + 3));
+  st += std::to_string(words[0]) + "," + std::to_string(words[2]) + ",";
+  add(r.Skip(5 + k));
+  add(r.Read(halves, halves + 2));
+  st += std::to_string(halves[0]) + "," + std::to_string(halves[1]) + ",";
+  add(r.Skip(3 + 2 + k));
+  add(r.Read(&b));
+  st += std::to_string(b) + ",";
+  add(r.Skip(1));  // beyond the end for the exact-size readers
+  return st;
+}
+static void body_libio(int k, Log& log) {
+  std::string bytes;
+  {
+    nop::StreamWriter<YOStream> w;
+    std::string st = drive_writer(w, k, false);
+    bytes = w.stream().buf.data;
+    log.push_back("stream-writer:" + st + ":" + shex(bytes));
+  }
+  {
+    nop::StreamReader<YIStream> r{bytes};
+    log.push_back("stream-reader:" + drive_reader(r, k, false));
+  }
+  {
+    std::vector<uint8_t> buf(bytes.size(), 0xcc);
+    nop::BufferWriter w{buf.data(), buf.size()};
+    std::string st = drive_writer(w, k, true);
+    log.push_back("buffer-writer:" + st + ":" + std::to_string(w.size()) + ":" + (std::string(buf.begin(), buf.end()) == bytes ? "same-bytes" : "DIFFERENT:" + hex(buf, 400)));
+    nop::BufferReader r{buf.data(), buf.size()};
+    log.push_back("buffer-reader:" + drive_reader(r, k, true) + ":" + std::to_string(r.remaining()));
+  }
+  {
+    std::vector<uint8_t> buf(bytes.size(), 0xcc);
+    nop::PedanticBufferWriter w{buf.data(), buf.size()};
+    std::string st = drive_writer(w, k, true);
+    log.push_back("pedantic-writer:" + st + ":" + std::to_string(w.size()) + ":" + (std::string(buf.begin(), buf.end()) == bytes ? "same-bytes" : "DIFFERENT:" + hex(buf, 400)));
+    nop::PedanticBufferReader r{buf.data(), buf.size()};
+    log.push_back("pedantic-reader:" + drive_reader(r, k, true) + ":" + std::to_string(r.remaining()));
+  }
+  {
+    nop::StreamWriter<YOStream> inner;
+    nop::BoundedWriter<nop::StreamWriter<YOStream>> w{&inner, bytes.size() + 5 + (size_t)k};
+    std::string st = drive_writer(w, k, false);
+    auto ps = w.WritePadding((std::uint8_t)(0x70 + k));
+    log.push_back("bounded-writer:" + st + (ps ? "+" : "-") + ":" + std::to_string(w.size()) + ":" + shex(inner.stream().buf.data));
+    nop::StreamReader<YIStream> rin{inner.stream().buf.data};
+    nop::BoundedReader<nop::StreamReader<YIStream>> r{&rin, bytes.size() + 3};
+    std::string rs = drive_reader(r, k, false);
+    auto pr = r.ReadPadding();
+    log.push_back("bounded-reader:" + rs + (pr ? "+" : "-") + ":" + std::to_string(r.size()) + ":" + std::to_string(rin.stream().buf.pos));
+  }
+}
+
 struct Body { const char* name; void (*fn)(int, Log&); };
 static const Body kBodies[] = {{"roundtrip", body_roundtrip}, {"table", body_table}, {"values", body_values}, {"rpc", body_rpc},
-                               {"tlsA", body_tls_a}, {"tlsB", body_tls_b}, {"rpcMethod", body_rpc_method}, {"tlsCtor", body_tls_ctor}, {"wide", body_wide}};
-static const int kNumBodies = 9;
+                               {"tlsA", body_tls_a}, {"tlsB", body_tls_b}, {"rpcMethod", body_rpc_method}, {"tlsCtor", body_tls_ctor}, {"wide", body_wide}, {"libio", body_libio}};
+static const int kNumBodies = 10;
 
 static std::string join(const Log& l) { std::string s; for (auto& x : l) s += x + "\n"; return s; }
 
@@ -547,15 +665,16 @@ int main(int argc, char** argv) {
   // "wide" shares template instantiations only with itself and with the two other serialisation bodies
   for (int a = 0; a < kNumBodies; a++)
     for (int b = a; b < kNumBodies; b++)
-      if (a != 8 && b != 8) sets.push_back({a, b});
+      if (a < 8 && b < 8) sets.push_back({a, b});
   sets.push_back({8, 8});
   sets.push_back({0, 8});
   sets.push_back({1, 8});
+  sets.push_back({9, 9});  // the library's readers/writers share code only with themselves
   sets.push_back({4, 4, 5});
   if (A.thorough()) { sets.push_back({0, 0, 0}); sets.push_back({4, 5, 5}); sets.push_back({0, 1, 4}); }
   for (size_t i = 0; i < sets.size(); i++) {
     if ((int)(i % A.nshards) != A.shard) continue;
-    const bool wide_set = sets[i].back() == 8;  // ~540 scheduling points: bound 3 would exceed the schedule cap
+    const bool wide_set = sets[i].back() >= 8;  // ~540 scheduling points: bound 3 would exceed the schedule cap
     explore_set(sets[i], (sets[i].size() > 2 || wide_set) ? std::min(bound, 2) : bound);
   }
   R.sample("{\"bodies\":\"roundtrip+roundtrip\",\"schedule\":\"0000100000000100...\",\"meaning\":\"choice index among enabled threads at each scheduling point; 0 = keep running\"}");
